@@ -19,6 +19,7 @@ func init() {
 			"R3 every Lock is released on all exits (defer or on every path); R4 the wrappers' unsynchronised bufio writer is touched only under write-side exclusion (write lock / sender ownership) - a wrapper Close that flushes it is reported; " +
 			"R5-R7 imports the structural rules whose violation is a race: sender writes only while owning the flag (C01/C06), idle-handler lock discipline (C20-R6), holder map swap under lock (C13-R3). " +
 			"ALSO: variadic parameter slices are only read; fields written by a plain function on a struct it receives as an argument are not owner-confined. " +
+			"ALSO (round 6): Structs holding a mutex or atomic state have pointer-receiver methods only. " +
 			"DOES NOT DECIDE: races inside user handlers/transports or the std lib, feasibility in time of a reported pair, element-level races in maps/slices guarded at field level, captured-variable races of closures (none present; not analysed).",
 		Assumptions: []string{"Go memory model; sync/atomic, sync.Mutex, sync.Map, sync.Pool, channels and context are race-free by contract"},
 		Run:         runC12,
